@@ -194,6 +194,11 @@ pub fn gen_case(seed: u64, idx: u64) -> HistorySpec {
 }
 
 async fn one_case(report: &Report, seed: u64, idx: u64) {
+    // every 5th case belongs to the phantom-prone class (admissible-read-version oracle)
+    if idx % 5 == 4 {
+        crate::c03p::one_case(report, seed, idx, false).await;
+        return;
+    }
     let spec = gen_case(seed, idx);
     let out = match run_history(&spec, WATCHDOG).await {
         Ok(o) => o,
@@ -349,6 +354,20 @@ fn selftest(args: &Args) -> i32 {
         if !sc.findings.is_empty() {
             fired[m] += 1;
         }
+    }
+    let (mut pf, mut pt) = (0, 0);
+    let dummy = Report::new(args, "exploration", "selftest", (60, 60));
+    for idx in 0..25u64 {
+        if let Some(f) = rt.block_on(crate::c03p::one_case(&dummy, args.seed, idx * 5 + 4, true)) {
+            pt += 1;
+            if f {
+                pf += 1;
+            }
+        }
+    }
+    println!("SELFTEST C03 phantom-class stale-value {pf}/{pt}");
+    if pf != pt || pt == 0 {
+        return 2;
     }
     println!("SELFTEST C03 dropped-row {}/{} duplicated-row {}/{} stale-value {}/{}", fired[0], tried[0], fired[1], tried[1], fired[2], tried[2]);
     if fired == tried && tried.iter().all(|t| *t > 0) { 0 } else { 2 }
